@@ -57,9 +57,10 @@ VARIABLES
 vars == <<cfg, pc, fs, serial, stage, i, t, applied, tapplied, buf, bstep, frames, wr,
           cancelled, err, result, faults, simdts, tdts, flog>>
 
-Names == {"o0", "t0", "o1", "t1", "o2", "t2"}
-OName(s) == IF s = 0 THEN "o0" ELSE IF s = 1 THEN "o1" ELSE "o2"
-TName(s) == IF s = 0 THEN "t0" ELSE IF s = 1 THEN "t1" ELSE "t2"
+Names == {"o0", "t0", "o1", "t1", "o2", "t2", "o3", "t3"}
+MaxSerial == 3      \* the environment leaves the last candidate free, so the search always succeeds
+OName(s) == IF s = 0 THEN "o0" ELSE IF s = 1 THEN "o1" ELSE IF s = 2 THEN "o2" ELSE "o3"
+TName(s) == IF s = 0 THEN "t0" ELSE IF s = 1 THEN "t1" ELSE IF s = 2 THEN "t2" ELSE "t3"
 
 \* Ill-posed input (cfg.bad # "none") must be rejected by one of the three phases that
 \* precede the creation of any file:
@@ -117,9 +118,11 @@ OpenFiles ==
   /\ LET r0 == TrySerial(fs, 0)
          r1 == TrySerial(r0[2], 1)
          r2 == TrySerial(r1[2], 2)
+         r3 == TrySerial(r2[2], 3)
      IN IF r0[1] THEN fs' = r0[2] /\ serial' = 0
         ELSE IF r1[1] THEN fs' = r1[2] /\ serial' = 1
-        ELSE fs' = r2[2] /\ serial' = 2
+        ELSE IF r2[1] THEN fs' = r2[2] /\ serial' = 2
+        ELSE fs' = r3[2] /\ serial' = 3
   /\ pc' = "run"
   /\ UNCHANGED <<cfg, stage, i, t, applied, tapplied, buf, bstep, frames, wr,
                  cancelled, err, result, faults, simdts, tdts, flog>>
@@ -370,12 +373,12 @@ ResumeReproduces ==
 
 (* ---- C15 ---- *)
 AllHandlesClosedOnReturn == Returned => \A n \in Names : fs[n] # "open"
-NoTempLeft == Returned => \A s \in 0..2 : fs[TName(s)] \in {"absent", "foreign"}
+NoTempLeft == Returned => \A s \in 0..MaxSerial : fs[TName(s)] \in {"absent", "foreign"}
 TempDirRemoved == (Returned /\ cfg.out = "temp") => \A n \in Names : fs[n] = "absent"
 ForeignFilesUntouched == \A n \in Names : (cfg.out = "path" /\ n \in cfg.foreign) => fs[n] = "foreign"
 NoStrayOutput ==
   (Returned /\ cfg.out = "path") =>
-     \A s \in 0..2 : fs[OName(s)] = (IF s = serial THEN "closed"
+     \A s \in 0..MaxSerial : fs[OName(s)] = (IF s = serial THEN "closed"
                                      ELSE IF OName(s) \in cfg.foreign THEN "foreign" ELSE "absent")
 FreshNameChosen == (serial >= 0 /\ cfg.out = "path") => OName(serial) \notin cfg.foreign /\ TName(serial) \notin cfg.foreign
 OutputHoldsOnlyCompleteFrames == Returned => \A n \in 1..NFrames : frames[n].complete
